@@ -54,6 +54,16 @@ def check_graph_immutability(project):
     if ms is None:
         return 0, 0, [{"function": "graph/core.py:Graph", "what": "class Graph not found"}], []
     memo = {"_controlled_by", "_cached_hash"}  # write-once caches of immutable structure
+    # ... and every attribute written ONLY under the write-once idiom `if self._x is None: self._x = <value>` (a memo of
+    # immutable structure; whether it is observable is decided by the twin oracle of the bounded stand-in)
+    for m in ms:
+        for x in ast.walk(m):
+            if isinstance(x, ast.If) and isinstance(x.test, ast.Compare) and len(x.test.ops) == 1 and isinstance(x.test.ops[0], ast.Is) \
+                    and isinstance(x.test.left, ast.Attribute) and isinstance(x.test.left.value, ast.Name) and x.test.left.value.id == "self" \
+                    and x.test.left.attr.startswith("_") and isinstance(x.test.comparators[0], ast.Constant) and x.test.comparators[0].value is None:
+                a = x.test.left.attr
+                if any(isinstance(y, ast.Assign) and any(isinstance(t, ast.Attribute) and isinstance(t.value, ast.Name) and t.value.id == "self" and t.attr == a for t in y.targets) for y in x.body):
+                    memo.add(a)
     init_mutable = []
     for m in ms:
         n += 1
